@@ -441,7 +441,10 @@ def check_aes_ctr_big(ctx):
     at on a concrete input beyond 32 bits.  Needs ~4.1 GiB of memory and ~7 s: thorough tier, and the quick
     tier exactly when a proof / translator step is broken (the search for a failing input)."""
     sub = "aes.ctr-4GiB"
-    if ctx.quick and not ctx.proof_broken:
+    # the translator could not read the AES sources (pinned data in use): nothing regenerated stands behind
+    # the proofs on this run, so look beyond 32 bits as well
+    fallback = any(f[0] == "x_aes" for f in getattr(vlib, "LAST_FALLBACKS", []))
+    if ctx.quick and not ctx.proof_broken and not fallback:
         ctx.count("aes.ctr-4GiB.not-run-in-quick-tier")
         return
     if not host_has_aes():
@@ -490,7 +493,7 @@ def check_aes_ctr_big(ctx):
                "AES-NI build (no sanitizer): ONE crypto_aesctr_stream call of 2^32 + 53 (thorough also 2^32 + 16k) zero bytes in place "
                "on a calloc block, then a call of 71 (33) bytes on the same stream; the last 69 (48) bytes of the long call and all bytes "
                "of the following call vs ctr_spec_from evaluated at their block index; run in the thorough tier and, in the quick tier, "
-               "only when a proof or translator step is broken",
+               "only when a proof or translator step is broken or the AES translator fell back to its pinned output",
                samples=cases[:1])
 
 
